@@ -11,7 +11,7 @@ Definition o_sg := (Z * Z * Z * Z * bool * list (Z * Z * Z * bool))%type.   (* i
 Definition o_ig := (Z * Z * Z * Z * bool * list (Z * Z * bool))%type.       (* id rp start end del indexes(id pt md) *)
 Record xobs := { o_ok : bool;                 (* the operation was accepted (ALTER) *)
                  o_pols : list z4; o_sgs : list o_sg; o_igs : list o_ig;
-                 o_nsh : list Z; o_nix : list (Z * Z) (* index id, end time held by the node *); o_dsh : list Z; o_dix : list Z }.
+                 o_nsh : list (Z * Z) (* shard id, end time held by the node *); o_nix : list (Z * Z) (* index id, end time held by the node *); o_dsh : list Z; o_dix : list Z }.
 
 Definition zsort := sort_by (fun x : Z => x).
 
@@ -25,7 +25,7 @@ Definition obs_of (ok : bool) (w : xworld) (l : xlog) : xobs :=
      o_igs := sort_by (fun g : o_ig => match g with (id, _, _, _, _, _) => id end)
                 (map (fun g => (ig_id g, ig_rp g, ig_start g, ig_end g, ig_del g,
                                 map (fun s => (ci_id s, ci_pt s, ci_md s)) (ig_ixs g))) (c_igs c));
-     o_nsh := zsort (map xs_id (x_shards w));
+     o_nsh := sort_by (fun p : Z * Z => fst p) (map (fun s => (xs_id s, xs_end s)) (x_shards w));
      o_nix := sort_by (fun p : Z * Z => fst p) (map (fun i => (xi_id i, xi_end i)) (x_ixs w));
      o_dsh := zsort (l_shards l); o_dix := zsort (l_ixs l) |}.
 
@@ -43,7 +43,7 @@ Definition oig_eqb (a b : o_ig) : bool :=
     (a1 =? b1) && (a2 =? b2) && (a3 =? b3) && (a4 =? b4) && Bool.eqb a5 b5 && list_eqb ci_eqb a6 b6 end.
 Definition xobs_eqb (a b : xobs) : bool :=
   Bool.eqb (o_ok a) (o_ok b) && list_eqb z4_eqb (o_pols a) (o_pols b) && list_eqb osg_eqb (o_sgs a) (o_sgs b)
-  && list_eqb oig_eqb (o_igs a) (o_igs b) && list_eqb Z.eqb (o_nsh a) (o_nsh b) && list_eqb (fun p q : Z * Z => (fst p =? fst q) && (snd p =? snd q)) (o_nix a) (o_nix b)
+  && list_eqb oig_eqb (o_igs a) (o_igs b) && list_eqb (fun p q : Z * Z => (fst p =? fst q) && (snd p =? snd q)) (o_nsh a) (o_nsh b) && list_eqb (fun p q : Z * Z => (fst p =? fst q) && (snd p =? snd q)) (o_nix a) (o_nix b)
   && list_eqb Z.eqb (o_dsh a) (o_dsh b) && list_eqb Z.eqb (o_dix a) (o_dix b).
 
 Definition accepted (w : xworld) (e : xevent) : bool :=
